@@ -46,3 +46,66 @@ Example ex_unknown_scheduler :
   is_ok (get_trainer_config (trainer_arg (VStr "cosine"))) = false /\
   is_ok (get_trainer_config (trainer_arg (VStr "step_lr"))) = true.
 Proof. vm_compute. split; reflexivity. Qed.
+
+(* ----------------------------------------------- the scheduler argument, for ALL other arguments *)
+(* What get_trainer_config puts at `lr_scheduler` depends on the argument `lr_scheduler` alone: it is what
+   the call with every other argument at its default puts there.  (Round-4 review, finding 10: the
+   theorems above fix the other arguments at their defaults through `trainer_arg`.) *)
+Theorem trainer_scheduler_depends_on_its_argument_only : forall a r, get_trainer_config a = Ok r ->
+  exists r0, get_trainer_config (trainer_arg (a "lr_scheduler")) = Ok r0 /\
+             get ["lr_scheduler"] r = get ["lr_scheduler"] r0.
+Proof.
+  intros a r H. unfold get_trainer_config in H. cbv zeta in H.
+  step H. step H.
+  match type of H with
+  | bind (mk_kw cls_LRSchedulerConfig [] []) _ = _ => eval_ok H (mk_kw cls_LRSchedulerConfig [] []); cbn [bind] in H
+  end.
+  match type of H with
+  | bind ?blk _ = Ok _ => destruct blk as [[v l]|] eqn:E; [cbn [bind] in H | discriminate H]
+  end.
+  repeat step H.
+  unfold get_trainer_config. cbv zeta.
+  change (trainer_arg (a "lr_scheduler") "lr_scheduler") with (a "lr_scheduler").
+  unfold trainer_arg, env_of.
+  cbn [lookup String.eqb Ascii.eqb Bool.eqb get_trainer_config_defaults].
+  eexists. split.
+  - repeat match goal with
+    | |- bind (mk_kw ?c ?kw []) _ = _ =>
+        let v := eval vm_compute in (mk_kw c kw []) in
+        lazymatch v with Ok _ => replace (mk_kw c kw []) with v by (vm_compute; reflexivity); cbn [bind] end
+    end.
+    rewrite E. cbn [bind].
+    match goal with |- ?L = Ok _ => let v := eval vm_compute in L in
+      lazymatch v with Ok ?x => transitivity (Ok x); [vm_compute; reflexivity | reflexivity] end end.
+  - vm_compute. reflexivity.
+Qed.
+Print Assumptions trainer_scheduler_depends_on_its_argument_only.
+
+(* ... so the three theorems about the scheduler argument hold whatever the other arguments are *)
+Theorem lr_scheduler_dict_any_args : forall a kw r, get_trainer_config a = Ok r ->
+  (a "lr_scheduler" = VDict [("step_lr", VDict kw)] ->
+   exists o, mk cls_StepLRConfig kw = Ok o /\
+     get ["lr_scheduler"] r = Some (VObj "LRSchedulerConfig" [("step_lr", o); ("reduce_lr_on_plateau", VNone)])) /\
+  (a "lr_scheduler" = VDict [("reduce_lr_on_plateau", VDict kw)] ->
+   exists o, mk cls_ReduceLROnPlateauConfig kw = Ok o /\
+     get ["lr_scheduler"] r = Some (VObj "LRSchedulerConfig" [("step_lr", VNone); ("reduce_lr_on_plateau", o)])).
+Proof.
+  intros a kw r H. destruct (trainer_scheduler_depends_on_its_argument_only a r H) as [r0 [H0 G]].
+  split; intro E; rewrite E in H0; rewrite G.
+  - exact (proj1 (lr_scheduler_dict kw r0) H0).
+  - exact (proj2 (lr_scheduler_dict kw r0) H0).
+Qed.
+Print Assumptions lr_scheduler_dict_any_args.
+
+Theorem scheduler_names_any_args : forall a r, get_trainer_config a = Ok r ->
+  (a "lr_scheduler" = VNone ->
+   get ["lr_scheduler"] r = Some (VObj "LRSchedulerConfig" [("step_lr", VNone); ("reduce_lr_on_plateau", VNone)])) /\
+  (a "lr_scheduler" = VStr "step_lr" ->
+   get ["lr_scheduler"] r = Some (VObj "LRSchedulerConfig" [("step_lr", default_obj cls_StepLRConfig); ("reduce_lr_on_plateau", VNone)])) /\
+  (a "lr_scheduler" = VStr "reduce_lr_on_plateau" ->
+   get ["lr_scheduler"] r = Some (VObj "LRSchedulerConfig" [("step_lr", VNone); ("reduce_lr_on_plateau", default_obj cls_ReduceLROnPlateauConfig)])).
+Proof.
+  intros a r H. destruct (trainer_scheduler_depends_on_its_argument_only a r H) as [r0 [H0 G]].
+  repeat split; intro E; rewrite E in H0; rewrite G; vm_compute in H0; injection H0 as <-; vm_compute; reflexivity.
+Qed.
+Print Assumptions scheduler_names_any_args.
